@@ -883,6 +883,13 @@ def run_rotate(key):
             letter=name,
             R=names[a],
         )
+        if a % 3 == 2:
+            # the map is linear: a tensor in other units (x 1e-13: compliances in 1/Pa; x 1e13)
+            for sc in (1e-13, 1e13):
+                osc = cx.arr("rotate", cx.call("rotate", c(t) * sc, c(rs[a]), letter=name + f"@x{sc:g}", R=names[a]), (3, 3, 3, 3), letter=name + f"@x{sc:g}", R=names[a])
+                if osc is not None:
+                    esc = float(np.abs(osc / sc - ref[a]).max())
+                    cx.check("rotate_law", esc <= TOL_ROT * scale, {"max_abs_err_rescaled": esc, "scale": sc}, letter=name + f"@x{sc:g}", R=names[a])
         if a % 3 == 1:
             # the same tensor and rotation in Fortran memory order
             of = cx.arr("rotate", cx.call("rotate", np.asfortranarray(c(t)), np.asfortranarray(c(rs[a])), letter=name + "@F", R=names[a]), (3, 3, 3, 3), letter=name + "@F", R=names[a])
